@@ -45,7 +45,7 @@ def handleTotality (cmd : String) (rest : List String) : Option String :=
     match rest with
     | [w] => match unH w with
       | some v =>
-        some s!"g={showR toHex (givenNameFallback v)} s={showR toHex (surnameFallback v)} x={showR toHex (suffixFallback v)}"
+        some s!"g={showR toHex (givenNameFallback v)} s={showR toHex (surnameSliced v)} x={showR toHex (suffixFallback v)}"
       | none => some "bad-args"
     | _ => some "bad-args"
   | "c14tplace" =>
